@@ -298,6 +298,14 @@ def run_lists(spec, rec, lib):
         elif r < 0.7:
             ks = rng.choice(NONSTR)
             cls = "nonlist"
+        elif r < 0.8:
+            # wrong-length lower-case hex entries whose length errors cancel out over the list (the list as a whole has the right
+            # number of hex digits; no single entry is a key)
+            h = lambda m: "".join(rng.choice("0123456789abcdef") for _ in range(m))  # noqa: E731
+            d = rng.choice([1, 2, 3, 32, 61, 63, 64])
+            ks = rng.choice([[h(64 - d), h(64 + d)], [h(64 + d), h(64 - d)], [h(64 - d), h(64), h(64 + d)], ["", h(128)], [h(128), ""],
+                             [h(32), h(32), h(64), h(128)], [h(64), h(63), h(64), h(65)], [h(2), h(126)]])
+            cls = "lengths-cancel-out"
         if isinstance(ks, list):
             rng.shuffle(ks)
         rec.hist("list_class", cls)
